@@ -44,7 +44,7 @@ def make_world(sched, src_policy, dst_keys, accept, verbose=False, src_keys=None
     return bp_net.BpHarness(dict(nodes=nodes), sched, verbose)
 
 
-def source_bundle(har, seqno, payload, ext_blocks=(), flags=0, pri_crc=0, pay_crc=0, report_to=None, dest='dtn://d/app', source=None):
+def source_bundle(har, seqno, payload, ext_blocks=(), flags=0, pri_crc=0, pay_crc=0, report_to=None, dest='dtn://d/app', source=None, node='s'):
     ''' Let the real source node build, secure and transmit one bundle; returns the transmitted bytes (or None). '''
     from bp.encoding import PrimaryBlock, CanonicalBlock, Timestamp
     from bp.util import BundleContainer
@@ -66,10 +66,10 @@ def source_bundle(har, seqno, payload, ext_blocks=(), flags=0, pri_crc=0, pay_cr
         blocks.append(CanonicalBlock(type_code=blk['type'], block_num=2 + ix, block_flags=blk.get('flags', 0), crc_type=blk.get('crc_type', 0), btsd=blk['btsd']))
     blocks.append(CanonicalBlock(type_code=1, block_num=1, crc_type=pay_crc, btsd=payload))
     ctr.bundle.blocks = blocks
-    mark = len(har.cl_out['s'])
-    err = har.send('s', ctr)
+    mark = len(har.cl_out[node])
+    err = har.send(node, ctr)
     har.settle()
-    outs = har.cl_out['s'][mark:]
+    outs = har.cl_out[node][mark:]
     if err or len(outs) != 1:
         return None
     return outs[0]['data']
